@@ -20,6 +20,15 @@ REFUSAL_RE = re.compile(r"power of (two|2)|can't be used|cannot be used|only wor
 GLIBC_RE = re.compile(r"malloc|free\(\)|corrupted|munmap_chunk|double free|invalid (next )?size|realloc\(\)|invalid pointer")
 
 
+def fatal_message(err):
+    """the line of stderr that says why the run died (not the backtrace)"""
+    lines = [l.strip() for l in err.splitlines() if l.strip() and "Switch to algorithm" not in l]
+    for l in lines:
+        if "CRITICAL" in l or "ssertion" in l or GLIBC_RE.search(l) or "Deadlock" in l or "terminate called" in l or "what():" in l:
+            return l[-400:]
+    return " | ".join(lines[-3:])[-400:]
+
+
 def pof2(p):
     return p & (p - 1) == 0
 
@@ -224,6 +233,18 @@ class Run:
         if res.rr.rc == 64:
             return []
         if res.crash is not None:
+            # mpi_interp's crash line names the operation started last by ANY rank; the second reporter (mpi_ops_coll.cpp) names the
+            # rank that was running and the coll operation that it was executing
+            c2 = [x for x in res.rr.json_lines() if x.get("k") == "crash2"]
+            if c2 and c2[0]["r"] >= 0:
+                r, ci = c2[0]["r"], c2[0]["ci"]
+                if ci >= 0:
+                    return [key for key, pi in where.items() if pi == ci]
+                # not inside a collective call of the list: creating a communicator, or MPI_Finalize
+                for p, pi in sorted(split_at.items(), key=lambda kv: kv[1]):
+                    if res.get(r, pi) is None:
+                        return [(p, None)]
+                return []
             i = res.crash["i"]
             for key, pi in where.items():
                 if pi == i:
@@ -232,19 +253,20 @@ class Run:
                 if pi == i:
                     return [(p, None)]
             return []
-        # deadlock / budget: the first call that each rank did not complete
-        out = []
+        # deadlock / budget: every rank stopped in its first operation without record; the EARLIEST of those operations (program
+        # order) is the one that blocks: the ranks stopped later are waiting for the ranks stopped there (MPI_Comm_split of the
+        # next size is a collective of the whole world)
+        ops = sorted([(pi, key) for key, pi in where.items()] + [(pi, (p, None)) for p, pi in split_at.items()])
+        first = None
         for w in range(NP):
-            for key, pi in sorted(where.items(), key=lambda kv: kv[1]):
-                if w in coll.members_of(self.case, key[0]) and res.get(w, pi) is None:
-                    if key not in out:
-                        out.append(key)
+            for pi, key in ops:
+                if key[1] is not None and w not in coll.members_of(self.case, key[0]):
+                    continue
+                if res.get(w, pi) is None:
+                    if first is None or pi < first[0]:
+                        first = (pi, key)
                     break
-        for p, pi in split_at.items():
-            if any(res.get(w, pi) is None for w in range(NP)) and not any(k[0] == p and where[k] < pi for k in out):
-                if all(where[k] > pi for k in out if k[0] == p) and any(res.get(w, pi) is None for w in coll.members_of(self.case, p)):
-                    out = [k for k in out if k[0] != p] + [(p, None)]
-        return out
+        return [first[1]] if first else []
 
     # ---- the whole case
     def known_crashers(self, todo):
@@ -316,7 +338,7 @@ class Run:
                 kind = self.failure_kind(fail, res)
                 cul = self.culprits(res, where, split_at, st)
                 if not cul:
-                    if res.crash is not None and res.crash["i"] == -2 and not any(s[0] == "missing" for s in st.values()):
+                    if res.crash is not None and not any(s[0] == "missing" for s in st.values()):
                         # died in MPI_Finalize after everything was reported
                         suspects.extend((p, ci, kind + "-at-finalize") for (p, ci) in where if (p, ci, None) not in suspects)
                         done.extend(where)
@@ -332,7 +354,7 @@ class Run:
                 for p, ci in cul:
                     if ci is None:
                         # creating the communicator failed (its constructor broadcasts the context id with the selected bcast algorithm)
-                        self.comm_failed(p, kind, fail[1])
+                        self.comm_failed(p, kind, fatal_message(res.rr.err))
                         size_done.append(p)
                     elif st.get((p, ci), ("missing",))[0] == "missing":
                         suspects.append((p, ci, kind))
@@ -374,7 +396,7 @@ class Run:
             kind = self.failure_kind(fail, res)
             cul = self.culprits(res, where, split_at, st)
             if (p, None) in cul:
-                self.comm_failed(p, kind, fail[1])
+                self.comm_failed(p, kind, fatal_message(res.rr.err))
                 return
             if kind == "refusal-abort":
                 self.refuse(p, "abort", res.rr.err, ci)
@@ -388,9 +410,9 @@ class Run:
                     kind = "partial-refusal-deadlock"
             if s[0] == "bad" and not kind.startswith(MEMORY_UNSAFE):
                 kind = s[1]
-            elif s[0] != "missing" and res.crash is not None and res.crash["i"] == -2:
+            elif s[0] != "missing" and res.crash is not None and not cul:
                 kind += "-at-finalize"
-            self.bad(tgt, kind, p, ci, (s[2] + " / " if s[0] == "bad" else "") + fail[1][-700:])
+            self.bad(tgt, kind, p, ci, (s[2] + " / " if s[0] == "bad" else "") + fatal_message(res.rr.err))
             return
         if s[0] == "bad":
             if s[1].startswith(MEMORY_UNSAFE):
@@ -461,7 +483,7 @@ class Run:
 
     def features(self, p, ci):
         """what a known finding may depend on (known/C29.json: "match": {"target": "coll:algo", "kinds": [...], "when": {...}})"""
-        f = {"p": p, "pof2": pof2(p), "nhosts": self.case.get("nhosts", NP)}
+        f = {"p": p, "pof2": pof2(p), "p_even": p % 2 == 0, "nhosts": self.case.get("nhosts", NP)}
         if ci is None:
             return f
         c = self.calls[ci]
@@ -636,9 +658,20 @@ def call_strategy(draw, kinds, nb_choices):
     return c
 
 
+def selected_algorithms():
+    """every (collective, algorithm) of the tree + the pseudo entry for the functions without selector.  VF_C29_ONLY=coll[:algo],...
+    restricts the list (a debugging aid for sensitivity experiments: never set in a normal run)."""
+    import os
+    algos = coll.algorithms() + [("nbc", "single")]
+    only = [x for x in os.environ.get("VF_C29_ONLY", "").split(",") if x]
+    if only:
+        algos = [(c, a) for c, a in algos if c in only or "%s:%s" % (c, a) in only]
+    return algos
+
+
 @st.composite
 def cases(draw, tier):
-    algos = coll.algorithms() + [("nbc", "single")]
+    algos = selected_algorithms()
     c, a = draw(st.sampled_from(algos))
     main = coll.KINDS_OF_COLL.get(c) or coll.KINDS
     n = 30 if tier == "quick" else 120
@@ -657,19 +690,56 @@ def cases(draw, tier):
 class C29(core.Prop):
     id = "C29"
     drivers = ["mpi_interp"]
-    sizes = {"quick": 120, "thorough": 3000}
+    sizes = {"quick": 60, "thorough": 3000}
     max_workers = 6
     technique = ("property-based testing (Hypothesis) against a sequential reference of every MPI collective (numpy, exact integer / "
                  "exactly representable floating-point values), one simulated SMPI run per (algorithm, call list)")
-    rule = ""
-    assumptions = []
+    rule = ("The algorithm list is read from the tree itself (colls::get_smpi_coll_help() = the text of `smpirun --help-coll`: 186 "
+            "algorithms of 11 collectives today) plus one pseudo entry `nbc` for the functions without selector (every MPI_I* form, "
+            "gatherv, scatterv, alltoallw, scan, exscan). A case = (collective, algorithm) x a list of size-independent CALL descriptions "
+            "x communicator sizes (all of 1..17, or a few) x the way sub-communicators are cut out of the 17-rank world (rotation, "
+            "stride, ranks per host). It is ONE simulated program (one fork, --cfg=smpi/<collective>:<algorithm>, the other collectives "
+            "keep their default): for every size p an MPI_Comm_split, then every call of the list on that communicator. A call = "
+            "MPI function of the collective (blocking; MPI_I*+Wait or MPI_I*+Test loop in the nbc list and in a few interleaved "
+            "calls), root (first/last/other), count in {0,1,2,p-1,p,p+1,large (4101 words, 301 per block), n}, datatype in {INT, "
+            "DOUBLE, 2INT, vector with holes VEC/VECD, contiguous CONT3, resized RSZ}, operator in {SUM, PROD, MAX, MIN, BXOR, MAXLOC, "
+            "MINLOC, a commutative user-defined operator (x+y+xy on 32-bit words, also on the derived types)}, MPI_IN_PLACE where MPI "
+            "allows it, v variants with generated counts (zeros included) and shuffled displacements with gaps, alltoallw with a datatype "
+            "per peer, arrival patterns (late root, late others, random delays). Buffers are filled by the driver with a pattern that "
+            "the oracle recomputes; the driver reports CRC-32 of the send and receive buffers (full buffers when a call is re-run alone). "
+            "ORACLE: a sequential reference of every collective on numpy arrays (exact: small integers, exactly representable doubles): "
+            "the whole receive buffer of every rank must equal the reference (positions of the type map = MPI result, everything "
+            "else untouched: holes of the datatypes, gaps between blocks, 2 extra words, receive buffers of non-root ranks), the send "
+            "buffer must be unchanged, 256-byte guard zones intact, return code MPI_SUCCESS, request = MPI_REQUEST_NULL after completion, "
+            "MPI_Barrier: nobody leaves before everybody entered (simulated dates, ranks delayed on purpose). The receive buffer of rank "
+            "0 after MPI_Exscan and the tail of an in-place reduce_scatter buffer are not compared (undefined in MPI). "
+            "REFUSALS are not violations: an exception thrown by every rank of the communicator (caught per call by the driver) or an "
+            "xbt_assert/xbt_die whose message says that the configuration is not supported; they are counted per (algorithm, p) in the "
+            "labels `refuse:<collective>:<algorithm>:p=<p>`. Violations: wrong buffers, signals, glibc heap-corruption aborts, "
+            "other aborts, deadlocks, exceptions on some ranks only, error codes. When a run dies or a call looks wrong the suspect "
+            "call is re-run ALONE (own fork) and only that verdict counts; calls proven to damage the process are kept out of the "
+            "common program. Signature = <collective>:<algorithm>:<kind>:<class of (size, call)>; known findings (known/C29.json) "
+            "declare their failure domain, a failure outside it is reported. Fixed cases: one standard call list per collective run "
+            "with every algorithm at every size. Non-trivial: a judged call with p not a power of two, or count < p, or root != 0. "
+            "Distinct = canonical JSON of the case.")
+    assumptions = ["all values are integers or exactly representable doubles (sums of 17 values < 2^24, products of 17 values in +-1..3, halves): "
+                   "exact equality whatever the association order; only commutative operators",
+                   "MPI_MAXLOC/MINLOC ties resolve to the lowest index (MPI standard); +0/-0 do not occur",
+                   "smpi/privatization:no, one rank per actor in one process (SMPI_app_instance_start); smpi/simulate-computation:no",
+                   "a fatal message is a refusal only when it matches the list of 'unsupported configuration' phrases (REFUSAL_RE); "
+                   "glibc heap messages are crashes",
+                   "mixed send/receive datatypes of equal signature (VEC sent, INT received) are implemented (coll.MIXED_TYPES) but not "
+                   "generated: outside the quantifier of the property",
+                   "CPU budget 150 s per simulated program (median 1 s): exceeded = nontermination; wall clock never decides"]
+    level_note = ("exploration of the stated quantifier: every algorithm x every size 1..17 x the standard call list (fixed cases) plus random "
+                  "lists; not a proof for counts/roots/types outside the generated ones")
 
     def strategy(self, tier):
         return cases(tier)
 
     def fixed_cases(self, tier):
         res = []
-        for c, a in coll.algorithms() + [("nbc", "single")]:
+        for c, a in selected_algorithms():
             res.append({"coll": c, "algo": a, "nhosts": NP, "rot": 0, "step": 1, "sizes": ALL_SIZES, "calls": standard_calls(c)})
         return res
 
